@@ -638,7 +638,7 @@ class C19(Spec):
     pid = "C19"
     level = "proof"
     design_ref = "DESIGN.md section 8 C19"
-    trusted = ["the file system is an environment function FS(path) in {unreadable, json(v)}; _Outputter.load is ASSUMED to return v for json(v) and otherwise to write one diagnostic and raise _CannotLoadFile (its body - open/ENOENT/json.load - is exercised only by the bounded stand-in)",
+    trusted = ["the file system is an environment function FS(path) in {missing, not JSON, json(v)}; the built-ins are assumed: open() raises OSError(errno=ENOENT) exactly for a missing file, json.load returns v or raises JSONDecodeError, `with file` closes it; _Outputter.load / validation_error / validation_success / parsing_error / filenotfound_error are PROVED against the contract cli.run uses (task cli:outputter)",
                "argparse, the formatters' texts (incl. traceback formatting) and process start-up are not modelled: covered by the bounded stand-in",
                "library calls (validator_for, check_schema, the validator constructor, iter_errors) are used through their contracts (C20, C04)"]
     assumptions = ["the instance list is an arbitrary finite sequence of paths; with no -i option one instance is read from standard input"]
@@ -723,11 +723,15 @@ def derivation_obligations(repo):
     ex = repo.units["validators:extend"].node
     calls = [n for n in _ast.walk(ex) if isinstance(n, _ast.Call) and _ast.unparse(n.func) == "create"]
     kws = {k.arg: _ast.unparse(k.value) for c in calls for k in c.keywords}
-    for k, v in {"meta_schema": "validator.META_SCHEMA", "validators": "all_validators", "type_checker": "type_checker", "id_of": "validator.ID_OF", "version": "version"}.items():
+    table_local = kws.get("validators")
+    for k, v in {"meta_schema": "validator.META_SCHEMA", "type_checker": "type_checker", "id_of": "validator.ID_OF", "version": "version"}.items():
         rec("validators:extend/F/passes:%s" % k, len(calls) == 1 and kws.get(k) == v, "extend calls create(%s=%s) (expected %s)" % (k, kws.get(k), v))
     src = _ast.unparse(ex)
-    rec("validators:extend/F/copies-table", "all_validators = dict(validator.VALIDATORS)" in src and "all_validators.update(validators)" in src,
-        "extend works on a copy of the parent's keyword table")
+    # the keyword table handed on is a local copy of the parent's table, updated with the overrides (any local name)
+    ok_table = bool(table_local) and table_local.isidentifier() and ("%s = dict(validator.VALIDATORS)" % table_local) in src and \
+        ("%s.update(validators)" % table_local) in src
+    rec("validators:extend/F/passes:validators", len(calls) == 1 and ok_table,
+        "extend calls create(validators=<a local copy of validator.VALIDATORS updated with the overrides>) (found %s)" % table_local)
     rec("validators:extend/F/default-type-checker", "if type_checker is None:\n        type_checker = validator.TYPE_CHECKER" in src,
         "without type_checker the parent's is carried along")
     # the class's methods look ids up through the closure variable id_of
